@@ -1,1 +1,2 @@
 pub mod tok;
+pub mod c04;
